@@ -270,9 +270,18 @@ static Verdict run_c05(const Case &c)
     // from the mode byte (an unknown hash, another cipher), the second alteration must not get through with it.
     size_t pos = 48 + (size_t)(c.geti("hpos") % (long)(base.size() - 48));
     uint8_t bit = (uint8_t)(1 << (c.geti("hpos") % 8));
+    // header offsets that carry no authenticated information: the two mode bytes (every value) and the blank bytes
+    // between the tag and offset 48 (a few values each)
+    std::vector<std::pair<int, int>> hv;
     for (int off : {8, 9})
       for (int val = 0; val < 256; val++)
+        hv.push_back({off, val});
+    for (int off = 10 + hl; off < 48; off++)
+      for (int val : {1, 0x80, 0xff})
+        hv.push_back({off, val});
+    for (auto &ov : hv)
       {
+        int off = ov.first, val = ov.second;
         if (base[off] == val)
           continue;
         bytes f = base;
